@@ -23,6 +23,16 @@ Monitors (all on the real ``onnx_ir`` objects, through public API only):
   evaluate exactly on its own, ``Shape.evaluate`` (complete, and one symbol at a time on the
   residual shape), ``Shape.simplify`` (then ``evaluate``) and ``Shape.free_symbols`` must give
   position i what dimension i gives on its own, i.e. the exact value;
+* symbol NAMES - every fourth random tree, the second string of every random case and a few
+  fixed one-operator trees per case are written over names other than N, M, K: accented latin,
+  greek, CJK and other scripts, digits and underscores in every position, dotted and very long
+  names, names of the grammar's functions (in their own and in another case), names SymPy gives a
+  meaning of its own (E, I, S, O, Q, pi, oo ...), Python keywords - all of them identifiers of the
+  documented tokenizer.  The name class is a fixed stratum of the case number.  All monitors
+  run unchanged (what a dimension is called must not matter); in addition each such name is
+  used alone: ``SymbolicDim(name)`` evaluates, prints, survives ``dim_param`` and is read from
+  ``(name)``, ``-name``, ``0 + name``.  A failure that disappears when the names are replaced
+  by plain ones is named ``identifier:<class>``;
 * strings of the documented grammar (random derivations; bounded exhaustive enumeration of flat
   and singly parenthesised strings) judged against Python's own parse of the same text evaluated
   with ``Fraction`` operands (``vfpy/c16_grammar.py``), then used in further arithmetic and
@@ -72,7 +82,10 @@ RULE = (
     "(all flat strings 'u x (op u x)*' and all such strings with one parenthesised operand range, "
     "operands {N,M,2}, seven binary operators, unary-minus runs, total operators <= 2 quick / <= 3 "
     "thorough); non-trivial iff >= 1 operator and >= 1 binding in domain; distinct by text. "
-    "'exhaustive' refers to that enumerated string space only."
+    "'exhaustive' refers to that enumerated string space only. "
+    "names: every 4th random tree, one string per random case and 2 fixed one-operator trees per case use "
+    "symbol names of a class fixed by the case number (11 classes: accented latin, greek, CJK, other "
+    "scripts, digits/underscores, dotted, long, function names in own/other case, SymPy-special, Python keywords)."
 )
 ASSUMPTIONS = [
     "Python's ast.parse gives the standard precedence/associativity; Fraction arithmetic is exact",
@@ -85,6 +98,9 @@ ASSUMPTIONS = [
     "construct user-supplied inputs (symbols with declared assumptions; +, -, *, unary minus over them), never for a verdict",
     "user-declared assumptions are limited to those a positive integer binding satisfies (none, integer, positive, real, nonnegative integer)",
     "a single case that keeps SymPy busy for more than 6 s is abandoned and counted (cases_abandoned_slow)",
+    "symbol names are identifiers of the documented tokenizer (first a letter of any script or '_', then letters, "
+    "digits, '_', '.'); names Python accepts as identifiers but the tokenizer does not (combining marks, letter-numbers, "
+    "middle dot) are not used",
 ]
 
 ENUM_OPERANDS = ("N", "M", "2")
@@ -169,6 +185,12 @@ def plan(tier: str) -> dict:
             "mixshape_partial_compared": 500 if quick else 5000,
             "mixshape_simplify_compared": 300 if quick else 3000,
             "mixshape_one_name_as_several_symbols": 100 if quick else 1000,
+            "named_trees_judged": 600 if quick else 8000,
+            "named_printparse_compared": 1500 if quick else 20000,
+            "named_grammar_compared": 1500 if quick else 20000,
+            "named_serde_compared": 300 if quick else 4000,
+            "name_alone_compared": 3000 if quick else 40000,
+            **{f"named_class_{c}": 20 if quick else 250 for c in G.NAME_CLASSES},
         },
         "min_nontrivial": 2500 if quick else 40000,
         "params": lay,
@@ -272,7 +294,7 @@ def _exc_class(exc: BaseException) -> str:
 
 
 def undocumented_functions(text: str) -> list[str]:
-    names = set(re.findall(r"([A-Za-z_][A-Za-z0-9_.]*)\s*\(", text))
+    names = set(re.findall(r"([^\W\d][\w.]*)\s*\(", text))
     return sorted(names - set(G.FUNCS_ALLOWED))
 
 
@@ -700,6 +722,18 @@ def name_text_disagreement(text, pytext, names, bindings) -> tuple[str, str | No
     label = sympy_verdict_text(small, names, bindings)
     if label:
         return f"same-in-sympy:{label}", sreal
+    # does the failure depend on what the symbols are called?
+    exotic = [n for n in names.values() if G.name_class(n) != "plain"]
+    if exotic:
+        tame = G.tame_names(exotic)
+
+        def fails_with(mapping) -> bool:
+            names2 = {a: mapping.get(r, r) for a, r in names.items()}
+            b2 = [{mapping.get(k, k): v for k, v in b.items()} for b in bindings]
+            return bool(string_fails(G.real_text_from_python(sptxt, names2), sptxt, names2, b2, extras=False))
+
+        if fails_with({}) and not fails_with(tame):
+            return f"identifier:{G.name_classes(_responsible_names(tame, fails_with))}", sreal
     named = G.mechanism_name(shape)
     if named != shape:
         return named, sreal
@@ -711,7 +745,7 @@ def name_text_disagreement(text, pytext, names, bindings) -> tuple[str, str | No
             feats.append("whitespace")
         if re.search(r"(?<![\w.])0\d", text):
             feats.append("leading-zero")
-        if any(not re.fullmatch(r"[A-Za-z_]\w*", n) for n in names.values()):
+        if any("." in n for n in names.values()):
             feats.append("dotted-identifier")
         return "text-form-sensitive:" + ("+".join(feats) or "parentheses/spacing"), sreal
     return shape, sreal
@@ -899,7 +933,71 @@ def _name_tree_failure(t, bindings, f, order_seed, via_shape):
             if label:
                 sig = f"{w.kind}|same-in-sympy:{label}"
                 detail = "plain SymPy does the same with the faithfully translated expression"
+    if again and "same-in-sympy" not in sig:
+        # does the failure depend on what the symbols are called?
+        classes = _identifier_sensitive_tree(small, bindings, f.key, which, order_seed, via_shape)
+        if classes:
+            parts = sig.split("|")
+            if w.kind == "print-parse" and w.cls == "unparseable" and isinstance(w.got, BaseException):
+                parts[1] = "unparseable:" + _exc_class(w.got)  # not the functions the text happens to contain
+            sig = "|".join(parts[:2] + [f"identifier:{classes}"] + [p_ for p_ in parts[2:] if p_.startswith("stage=")])
+            detail = ((detail + "; ") if detail else "") + "the same expression over plain symbol names does not fail"
     return sig, small, w, detail
+
+
+def _identifier_sensitive_tree(small, bindings, key, which, order_seed, via_shape) -> str | None:
+    """Naming aid: the classes of the symbol names the failure of ``small`` depends on (it is gone
+    once they are replaced by plain names bound to the same values), or None."""
+    exotic = [n for n in X.symbols(small) if G.name_class(n) != "plain" and all(n in b for b in bindings)]
+    if not exotic:
+        return None
+    tame = G.tame_names(exotic)
+    b2 = [dict(b, **{tame[n]: b[n] for n in exotic}) for b in bindings]
+
+    def fails_with(mapping) -> bool:
+        try:
+            got = tree_fails(X.rename(small, mapping), b2, which, _nocount, order_seed, via_shape)
+        except X.NotBuildable:
+            return True
+        return bool(got) and any(g.key == key for g in got)
+
+    if not fails_with({}) or fails_with(tame):
+        return None
+    return G.name_classes(_responsible_names(tame, fails_with))
+
+
+def _responsible_names(tame: dict[str, str], fails_with) -> list[str]:
+    """With every name of ``tame`` replaced the failure is gone; put the names back one at a time
+    and keep replaced only those whose return brings the failure back."""
+    mapping = dict(tame)
+    for n in sorted(tame):
+        trial = {k: v for k, v in mapping.items() if k != n}
+        if trial and not fails_with(trial):
+            mapping = trial
+    return sorted(mapping)
+
+
+def identifier_sensitive_text(text, pairs) -> str | None:
+    """Naming aid: ``text`` does not read back to the wanted values (``pairs``: (bindings, value)).
+    Does it once its symbol names are replaced by plain ones?  Returns the classes of the names
+    responsible, or None."""
+    if not text or any(want is None for _, want in pairs):
+        return None
+    bindings = [{k: v for k, v in b.items() if isinstance(k, str) and isinstance(v, int)} for b, _ in pairs]
+    pytext, names = G.alias_text(text, set().union(*[set(b) for b in bindings]))
+    exotic = [n for n in names.values() if G.name_class(n) != "plain"]
+    if not exotic:
+        return None
+    tame = G.tame_names(exotic)
+
+    def reads_back(mapping) -> bool:
+        t2 = G.real_text_from_python(pytext, {a: mapping.get(r, r) for a, r in names.items()})
+        return all(_reparse_value(t2, {mapping.get(k, k): v for k, v in b.items()}) == want
+                   for b, (_, want) in zip(bindings, pairs))
+
+    if reads_back({}) or not reads_back(tame):
+        return None
+    return G.name_classes(_responsible_names(tame, lambda m: not reads_back(m)))
 
 
 def _printed_text_sympy_label(text, pairs) -> str | None:
@@ -1087,8 +1185,15 @@ def _name_string_failure(text, pytext, names, bindings, f):
             label = _printed_text_sympy_label(f.text, [(f.binding, f.want)])
             if label:
                 sig = f"print-parse|same-in-sympy:{label}|stage=parsed-then-printed"
+            else:
+                classes = identifier_sensitive_text(f.text, [(f.binding, f.want)])
+                if classes:
+                    sig = f"print-parse|unparseable:{what}|identifier:{classes}|stage=parsed-then-printed"
     elif f.kind == "print-parse" and f.cls == "value-changed":
         cls, mech, minimal = classify_printed_text(f.text, [(f.binding, f.want)])
+        classes = identifier_sensitive_text(f.text, [(f.binding, f.want)]) if "same-in-sympy" not in (mech or "") else None
+        if classes:
+            mech = f"identifier:{classes}"
         sig = f"print-parse|{cls}|{mech or 'unclassified'}|stage=parsed-then-printed"
     elif f.kind == "text-then-arith":
         tree = G.python_meaning(pytext)
@@ -1532,6 +1637,138 @@ def mixshape_case(ctx, rng, case) -> None:
 
 
 # ================================================================================================
+# symbol names
+# ================================================================================================
+NAME_CLASS_ORDER = tuple(G.NAME_CLASSES)
+NAMED_TREE_STRIDE = 4
+# one-operator trees (and one of each rounding function over a quotient) written over a drawn name
+# ``A`` and a second one ``B``: every operator of the statement meets every name class
+NAMED_SMALL_TREES = (
+    ["add", ["sym", "A"], ["int", 1]], ["sub", ["int", 3], ["sym", "A"]], ["mul", ["sym", "A"], ["sym", "B"]],
+    ["floordiv", ["sym", "A"], ["int", 2]], ["truediv", ["sym", "A"], ["sym", "B"]], ["mod", ["sym", "A"], ["int", 3]],
+    ["neg", ["sym", "A"]], ["floor", ["truediv", ["sym", "A"], ["int", 2]]], ["ceil", ["truediv", ["sym", "A"], ["int", 3]]],
+    ["trunc", ["truediv", ["sub", ["sym", "A"], ["sym", "B"]], ["int", 2]]], ["max", ["sym", "A"], ["sym", "B"]],
+    ["min", ["add", ["sym", "A"], ["int", 1]], ["int", 4]], ["mod", ["mul", ["sym", "A"], ["sym", "A"]], ["sym", "B"]],
+    ["floordiv", ["add", ["sym", "A"], ["sym", "B"]], ["sym", "A"]], ["sub", ["sym", "A"], ["sym", "B"]],
+    ["add", ["usym", "A", "plain"], ["sym", "B"]], ["mul", ["int", 2], ["usym", "A", "int"]],
+)
+
+
+def name_class_of_case(case: int) -> str:
+    """The name class is a fixed stratum of the case number (never left to chance)."""
+    return NAME_CLASS_ORDER[case % len(NAME_CLASS_ORDER)]
+
+
+def pick_names(rng, cls: str, k: int) -> list[str]:
+    """``k`` distinct names: the first of class ``cls``, the others of any class or tame."""
+    out = [rng.choice(G.NAME_CLASSES[cls])]
+    while len(out) < k:
+        r = rng.random()
+        if r < 0.35:
+            n = rng.choice(G.NAME_CLASSES[cls])
+        elif r < 0.75:
+            n = rng.choice(G.NAME_CLASSES[rng.choice(NAME_CLASS_ORDER)])
+        else:
+            n = rng.choice(("N", "M", "K", "batch", "seq_len", "H"))
+        if n not in out:
+            out.append(n)
+    return out
+
+
+def bindings_over(bindings, mapping):
+    """The same bindings with every renamed symbol bound as well (old keys are kept: the fixed
+    dimensions of the shape monitors and the shrinker use them)."""
+    return [dict(b, **{new: b[old] for old, new in mapping.items() if old in b}) for b in bindings]
+
+
+def name_alone_fails(name: str, v: int, count=_nocount) -> list[Fail]:
+    """A dimension that is just a name: construct, print, evaluate (completely; after a binding
+    of another symbol), free symbols, ``dim_param`` round trip, and the one-name strings of the
+    grammar ``(name)``, ``-name``, ``0 + name``, ``name`` between blanks."""
+    fails: list[Fail] = []
+
+    def check(clause, ok, got=None, want=None, text=None):
+        count("name_alone_compared")
+        if not ok:
+            fails.append(Fail("name-alone", clause, binding={name: v}, got=got, want=want, text=text))
+
+    try:
+        d = ir.SymbolicDim(name)
+        check("value-is-not-the-name", d.value == name and str(d) == name, got=d.value, want=name)
+        r = d.evaluate({name: v})
+        check("evaluate", isinstance(r, int) and not isinstance(r, bool) and r == v, got=r, want=v)
+        rest = d.evaluate({"unused_dim": 3})
+        r = rest.evaluate({name: v}) if isinstance(rest, ir.SymbolicDim) else rest
+        check("evaluate-after-unrelated-binding", as_exact(r) == v, got=r, want=v)
+        fs = set(d.free_symbols())
+        check("free_symbols", fs == {name}, got=sorted(fs), want=[name])
+    except Exception as exc:  # noqa: BLE001 - a name of the documented tokenizer is a dimension
+        fails.append(Fail("name-alone", "raises:" + _exc_class(exc), binding={name: v}, exc=_exc(exc)))
+        return fails
+    for label, text, want in (("parenthesised", f"({name})", v), ("negated", f"-{name}", -v),
+                              ("zero-plus", f"0 + {name}", v), ("blanks", f"  {name} ", v)):
+        try:
+            r = ir.SymbolicDim(text).evaluate({name: v})
+        except Exception as exc:  # noqa: BLE001
+            fails.append(Fail("name-alone", f"text-{label}-rejected:" + _exc_class(exc), binding={name: v}, text=text, exc=_exc(exc)))
+            continue
+        check(f"text-{label}", as_exact(r) == want, got=r, want=want, text=text)
+    try:
+        value = ir.Value(name="v", type=ir.TensorType(ir.DataType.FLOAT), shape=ir.Shape([name, 2]))
+        proto = onnx.ValueInfoProto()
+        proto.ParseFromString(ir_serde.serialize_value(value).SerializeToString())
+        stored = proto.type.tensor_type.shape.dim[0]
+        check("serde-dim_param-is-not-the-name", stored.WhichOneof("value") == "dim_param" and stored.dim_param == name,
+              got=stored.dim_param, want=name)
+        back = ir_serde.deserialize_value_info_proto(proto, None).shape
+        r = back[0].evaluate({name: v}) if isinstance(back[0], ir.SymbolicDim) else back[0]
+        check("serde-evaluate", as_exact(r) == v and back[1] == 2, got=r, want=v)
+    except Exception as exc:  # noqa: BLE001
+        fails.append(Fail("name-alone", "serde-raises:" + _exc_class(exc), binding={name: v}, exc=_exc(exc)))
+    return fails
+
+
+def judge_name_alone(ctx, name: str, v: int, source: str) -> None:
+    fails = name_alone_fails(name, v, ctx.count)
+    ctx.count("names_alone_judged")
+    seen = set()
+    # naming: a clause that fails for a plain name as well does not depend on the name
+    any_name = {f.key for f in name_alone_fails("nm0", v)} if fails else set()
+    for f in fails:
+        if f.key in seen:
+            continue
+        seen.add(f.key)
+        ctx.violation(f"name-alone|{f.cls}|" + ("any-name" if f.key in any_name else f"identifier:{G.name_class(name)}"),
+                      f"{f.describe()}\n  name {name!r} ({source})", {"what": "name", "name": name, "value": v})
+
+
+def names_case(ctx, rng, case) -> None:
+    """Fixed stratum of every random case: names of the case's class used alone and in a few
+    one-operator trees."""
+    cls = name_class_of_case(case)
+    a, b_ = pick_names(rng, cls, 2)
+    mapping = {"A": a, "B": b_}
+    ctx.count(f"named_class_{cls}")
+    judge_name_alone(ctx, a, _value(rng), f"names of case {case}")
+    bindings = [{"A": x, "B": y, "N": 3, "M": z, "K": 2, "unused_dim": 5}
+                for x, y, z in ((rng.randint(1, 12), rng.randint(1, 12), 4), (_value(rng), _value(rng), 7), (1, 1, 1))]
+    bindings = bindings_over(bindings, mapping)
+    first = rng.randrange(len(NAMED_SMALL_TREES))
+    for j in range(2):
+        t = X.rename(NAMED_SMALL_TREES[(first + j * 6) % len(NAMED_SMALL_TREES)], mapping)
+        _judge_named_tree(ctx, t, bindings, case % 6, j == 1, f"small tree over names of case {case}",
+                          ("eval", "partial", "print-parse", "serde") if j == 0 else ("eval", "print-parse", "shape"))
+
+
+def _judge_named_tree(ctx, t, bindings, order_seed, via_shape, source, kinds) -> None:
+    before = {k: ctx.counters.get(k, 0) for k in ("printparse_compared", "serde_compared", "trees_judged")}
+    judge_tree(ctx, t, bindings, order_seed, via_shape, source, kinds)
+    ctx.count("named_trees_judged", ctx.counters.get("trees_judged", 0) - before["trees_judged"])
+    ctx.count("named_printparse_compared", ctx.counters.get("printparse_compared", 0) - before["printparse_compared"])
+    ctx.count("named_serde_compared", ctx.counters.get("serde_compared", 0) - before["serde_compared"])
+
+
+# ================================================================================================
 # case generation
 # ================================================================================================
 def _value(rng) -> int:
@@ -1572,12 +1809,31 @@ def tree_case(ctx, rng, case) -> None:
     if X.n_ops(t) > 14:
         kinds = tuple(k for k in ALL_KINDS if k != "simplify")
         ctx.count("trees_too_big_for_simplify")
+    if case % NAMED_TREE_STRIDE == 0:
+        # the same tree over other symbol names (own random stream); the class is a fixed stratum
+        nrng = ctx.rng(case, "names-tree")
+        cls = name_class_of_case(case // NAMED_TREE_STRIDE)
+        used = X.symbols(t)
+        mapping = dict(zip(used, pick_names(nrng, cls, len(used))))
+        ctx.count(f"named_class_{cls}")
+        _judge_named_tree(ctx, X.rename(t, mapping), bindings_over(bindings, mapping), order_seed, via_shape,
+                          f"random case {case} over names {sorted(mapping.values())}"[:300], kinds)
+        return
     judge_tree(ctx, t, bindings, order_seed, via_shape, f"random case {case}", kinds)
 
 
 def strings_case(ctx, rng, case) -> None:
     for i in range(STRINGS_PER_CASE):
-        tt = G.random_string(rng)
+        named = i == 1
+        if named:
+            # identifiers of the class fixed by the case number (own random stream)
+            nrng = ctx.rng(case, "names-string")
+            cls = name_class_of_case(case)
+            tt = G.random_string(rng, special_idents=pick_names(nrng, cls, nrng.choice((1, 1, 2))))
+            ctx.count(f"named_class_{cls}")
+            compared_before = ctx.counters.get("grammar_compared", 0)
+        else:
+            tt = G.random_string(rng)
         pytext = tt.python_text()
         text = tt.parser_text(rng if rng.random() < 0.7 else None)
         names = {alias: real for real, alias in tt.alias.items()}
@@ -1588,6 +1844,9 @@ def strings_case(ctx, rng, case) -> None:
             bindings.append({real: (rng.randint(1, 9) if small else _value(rng)) for real in names.values()})
         judge_string(ctx, text, pytext, names, bindings, f"random case {case}.{i}", extra_sel=rng.randrange(7),
                      extras=rng.random() < 0.6)
+        if named:
+            ctx.count("named_strings_judged")
+            ctx.count("named_grammar_compared", ctx.counters.get("grammar_compared", 0) - compared_before)
         if i == 0 and len(ctx.samples) < ctx.MAX_SAMPLES:
             ctx.sample({"string": text, "python_reading": pytext, "names": names, "bindings": bindings[0]})
 
@@ -1646,6 +1905,7 @@ def run(ctx) -> None:
             tree_case(ctx, rng, case)
             strings_case(ctx, rng, case)
             mixshape_case(ctx, ctx.rng(case, "mixshape"), case)
+            names_case(ctx, ctx.rng(case, "names"), case)
     ctx.exhaustive = done_enum_blocks == my_enum_blocks
     if ctx.exhaustive:
         ctx.count("shards_that_completed_their_share_of_the_string_enumeration")
@@ -1665,6 +1925,8 @@ def replay(replay_data, ctx) -> None:
         fails, _ = mixshape_fails(specs, bindings, order_seed, do_simplify, ctx.count)
         if fails:
             report_mixshape(ctx, specs, bindings, fails, order_seed, do_simplify, "replay")
+    elif replay_data.get("what") == "name":
+        judge_name_alone(ctx, replay_data["name"], replay_data["value"], "replay")
     elif replay_data.get("what") == "string":
         text, pytext = replay_data["text"], replay_data["pytext"]
         names, bindings = replay_data["names"], replay_data["bindings"]
